@@ -10,7 +10,7 @@ from fractions import Fraction
 from ..gen.ledger import Opts, gen_ledger, render_dsl
 from ..model import hmrc
 from ..probe import probe
-from ..util import rng_for, sha, fr, dstr, iso, d as pdate, ZERO
+from ..util import cap_viols, rng_for, sha, fr, dstr, iso, d as pdate, ZERO
 from . import ledger_core as lc
 
 PROP = "C05"
@@ -289,7 +289,7 @@ def run_lib(desc):
         if len(samples) < 2 and "err" in o and len(txs) <= 8 and not vs:
             samples.append({"class": cls, "ledger": lc.brief(txs), "tool_error": o["err"]["message"][:200]})
     return {"evaluations": len(cases), "nontrivial_hashes": hashes, "counters": cnt,
-            "violations": viols[:30], "samples": samples}
+            "violations": cap_viols(viols), "samples": samples}
 
 
 def run_cli(desc):
@@ -413,7 +413,7 @@ def run_mcp(desc):
                 msg = a.get("error", {}).get("message", "")
                 viols.append({"clause": "covered-refused", "signature": "covered-refused:" + residue_class(txs, msg.split("\n\n")[1] if "\n\n" in msg else msg),
                               "detail": "mcp: " + msg[:200], "case": {"op": "calc", "txs": txs, "cls": "mcp"}})
-    return {"evaluations": len(reqs), "nontrivial_hashes": hashes, "counters": cnt, "violations": viols[:20], "samples": []}
+    return {"evaluations": len(reqs), "nontrivial_hashes": hashes, "counters": cnt, "violations": cap_viols(viols), "samples": []}
 
 
 def run_shard(desc):
